@@ -268,6 +268,9 @@ func runC03(r *Run) {
 	r.Borrow("C02", map[string]string{"C02.guards": "C03.decodeguards"})
 	// Encode starts from an empty Raw: what follows the rebuilt header and attributes is never left behind (shared with C08)
 	r.Borrow("C08", map[string]string{"C08.reset": "C03.reset"})
+	// what Encode wrote decodes again for every length the 16-bit field can hold: the decoder's window is
+	// Raw[20:20+size] with size the declared length as an int (shared with C02)
+	r.Borrow("C02", map[string]string{"C02.window": "C03.decodewindow"})
 
 	// ---- Equal agrees with content, not with history
 	eqr := r.Rule("C03.equal", "Message.Equal and the functions it calls never compare a slice with nil: a Message without attributes is Equal to the decode of its own bytes whether its list is nil (fresh) or empty (reused)", 2)
